@@ -958,7 +958,8 @@ func stress(rt *rapid.T, p *idl.Program) bool {
 						switch k := rapid.IntRange(0, 9).Draw(rt, "stressarg"); {
 						case k <= 1:
 							n = rapid.SampledFrom(stressArgs).Draw(rt, "argname")
-						case k == 2 && len(prev) > 0:
+						case k >= 2 && k <= 4 && len(prev) > 0:
+							// differs from an earlier argument of the same function only by case / underscores
 							n = variant(rapid.SampledFrom(prev).Draw(rt, "prevarg"), "argvariant")
 						}
 						if n != "" && !used[n] && !reservedIDL[n] {
